@@ -103,6 +103,12 @@ type SimTask struct {
 	terminalSent bool
 	// RunningAckAt: when the core acknowledged this task's TASK_RUNNING (-1: not yet)
 	RunningAckAt time.Duration
+	// launchedWhileHandling: number of the event the core was handling when its ACCEPT came in.
+	launchedWhileHandling int
+	// RunningQueuedDuringItsRound: the first TASK_RUNNING of this task was already waiting in the
+	// event stream when the core came back from handling the offers event that launched it (the
+	// core then deals with the update and with the result of the round at the same time).
+	RunningQueuedDuringItsRound bool
 }
 
 type ReceivedCommand struct {
@@ -172,6 +178,8 @@ type World struct {
 	OfferDelay func(a *Agent) time.Duration
 	// HoldTerminalUpdates delays terminal status updates (the master retrying them much later)
 	HoldTerminalUpdates time.Duration
+
+	clk streamClock
 }
 
 func NewWorld(s *simrt.Sim) *World {
@@ -195,15 +203,50 @@ type stream struct {
 	ch     chan *scheduler.Event
 	closed bool
 	inc    int
+	w      *World
 }
 
 type response struct{ st *stream }
 
+// Plain fields, no lock: only the goroutine holding the scheduling token touches them, and a
+// lock here would add scheduling points to every run.
+type streamClock struct {
+	tick        int                      // advanced at every emit and every Decode call
+	queuedAt    map[*scheduler.Event]int // tick at which an event was queued
+	decoded     int                      // number of events the core has taken so far
+	behindSince int                      // number of the event the core was handling when it last fell behind (0: it is not behind)
+}
+
 func (r *response) Close() error { return nil }
 func (r *response) Decode(v encoding.Unmarshaler) error {
+	w := r.st.w
+	callTick := 0
+	if w != nil {
+		w.clk.tick++
+		callTick = w.clk.tick
+	}
 	e, ok := simrt.Recv2(r.st.ch)
 	if !ok || e == nil {
 		return io.EOF
+	}
+	if w != nil {
+		w.clk.decoded++
+		q, known := w.clk.queuedAt[e]
+		delete(w.clk.queuedAt, e)
+		if waiting := known && q < callTick; !waiting {
+			w.clk.behindSince = 0 // the core had to wait for this event: it had caught up
+		} else {
+			if w.clk.behindSince == 0 {
+				w.clk.behindSince = w.clk.decoded - 1 // the event it was busy with meanwhile
+			}
+			// every event since behindSince was already waiting when the core came for it
+			if u := e.GetUpdate(); u != nil && u.Status.GetState() == mesos.TASK_RUNNING && w.clk.behindSince > 0 {
+				if t := w.Tasks[u.Status.TaskID.Value]; t != nil && t.launchedWhileHandling >= w.clk.behindSince {
+					t.RunningQueuedDuringItsRound = true
+					simrt.Count("probe.running_update_queued_during_its_offers_round")
+				}
+			}
+		}
 	}
 	*(v.(*scheduler.Event)) = *e
 	return nil
@@ -222,6 +265,11 @@ func (w *World) emit(e *scheduler.Event) {
 	if st == nil || st.closed {
 		return
 	}
+	if w.clk.queuedAt == nil {
+		w.clk.queuedAt = map[*scheduler.Event]int{}
+	}
+	w.clk.tick++
+	w.clk.queuedAt[e] = w.clk.tick
 	select {
 	case st.ch <- e:
 	default:
@@ -353,7 +401,7 @@ func (w *World) subscribe(inc int, call *scheduler.Call, lg *CallLog) (mesos.Res
 		w.FwID = fmt.Sprintf("fw-%04d", w.fwN)
 	}
 	lg.FwID = w.FwID
-	st := &stream{ch: make(chan *scheduler.Event, 100000), inc: inc}
+	st := &stream{ch: make(chan *scheduler.Event, 100000), inc: inc, w: w}
 	w.sub = st
 	fw := w.FwID
 	w.mu.Unlock()
@@ -542,7 +590,7 @@ func (w *World) accept(call *scheduler.Call, lg *CallLog) {
 			continue
 		}
 		for _, ti := range op.GetLaunch().GetTaskInfos() {
-			t := &SimTask{ID: ti.TaskID.Value, Name: ti.Name, Info: ti, FwID: w.FwID, State: "STANDBY", Mesos: mesos.TASK_STAGING, LaunchSeq: w.seq + 1, RunningAckAt: -1}
+			t := &SimTask{ID: ti.TaskID.Value, Name: ti.Name, Info: ti, FwID: w.FwID, State: "STANDBY", Mesos: mesos.TASK_STAGING, LaunchSeq: w.seq + 1, RunningAckAt: -1, launchedWhileHandling: w.clk.decoded}
 			_ = json.Unmarshal(ti.Data, &t.Cmd)
 			for _, l := range ti.GetLabels().GetLabels() {
 				if l.Key == "environmentId" && l.Value != nil {
@@ -983,6 +1031,16 @@ func (w *World) AliveTasks() []*SimTask {
 		if t := w.Tasks[id]; !terminal(t.Mesos) && t.Agent != nil {
 			out = append(out, t)
 		}
+	}
+	return out
+}
+
+// AllTasks returns every task ever launched (no lock, hence no scheduling point: for oracles that
+// run while they hold the scheduling token).
+func (w *World) AllTasks() []*SimTask {
+	var out []*SimTask
+	for _, id := range w.TaskOrder {
+		out = append(out, w.Tasks[id])
 	}
 	return out
 }
